@@ -35,6 +35,7 @@ func runC14(c *Ctx) {
 	R.Require("C14.close1002", 4)
 	R.Require("C14.ctlpayload", 6)
 	R.Require("C14.cut", 1)
+	R.Require("C14.bufsize", 1)
 	R.Exhaust = true
 	fn := P.Func("websocket", "(*Conn).advanceFrame")
 	if !R.Anchor(fn != nil, "C14.rules", "websocket.(*Conn).advanceFrame") {
@@ -222,10 +223,79 @@ func runC14(c *Ctx) {
 	}
 	R.Extra["decision_table_variants"] = total
 
+	checkWSReadBuffer(c)
 	checkWSLimit(c, e, fn)
 	checkWSLen64(c, fn)
 	checkWSClose1002(c, fn)
 	checkWSCtlPayload(c)
+}
+
+// checkWSReadBuffer: Conn.read(n) peeks n bytes from the bufio.Reader, so the reader's buffer must hold the largest
+// control frame payload (125 bytes) whatever buffer size the application asked for.
+func checkWSReadBuffer(c *Ctx) {
+	P, R := c.P, c.R
+	fn := P.Func("websocket", "newConnBRW")
+	if !R.Anchor(fn != nil, "C14.bufsize", "websocket.newConnBRW") {
+		return
+	}
+	n := 0
+	core.EachInstr(fn, func(in ssa.Instruction) {
+		call, ok := in.(*ssa.Call)
+		if !ok || call.Call.StaticCallee() == nil || core.FullName(call.Call.StaticCallee()) != "bufio.NewReaderSize" {
+			return
+		}
+		n++
+		// lower bound of the size argument: constants flowing in, and the clamp "if size < K { size = K }"
+		var lower func(v ssa.Value, d int) int64
+		lower = func(v ssa.Value, d int) int64 {
+			if k, isK := core.ConstInt(v); isK {
+				return k
+			}
+			if phi, isPhi := v.(*ssa.Phi); isPhi && d < 8 {
+				best := int64(1 << 40)
+				for i, e := range phi.Edges {
+					lb := clampFor(phi, i)
+					if lb < 0 {
+						lb = lower(e, d+1)
+					}
+					if lb < best {
+						best = lb
+					}
+				}
+				return best
+			}
+			return 0
+		}
+		lb := lower(call.Call.Args[1], 0)
+		R.Check(lb >= 125, "C14.bufsize", fmt.Sprintf("websocket|newConnBRW|read-buffer-holds-control-frame#%d", n), P.InstrPos(call),
+			fmt.Sprintf("the read buffer is at least %d bytes, enough for the largest control frame payload", lb),
+			fmt.Sprintf("the read buffer can be as small as %d bytes: a legal 125-byte control frame (ping) cannot be peeked and reading fails permanently with 'buffer full'", lb), nil)
+	})
+	if n == 0 {
+		R.Unknown("C14.bufsize", "websocket|newConnBRW|read-buffer-holds-control-frame", P.Pos(fn.Pos()), "no bufio.NewReaderSize call found", nil)
+	}
+}
+
+// clampFor: the i-th edge of phi carries a value known to be >= K on that edge; returns K or -1.
+func clampFor(phi *ssa.Phi, i int) int64 {
+	best := int64(-1)
+	pred := phi.Block().Preds[i]
+	atoms := core.GuardAtoms(pred)
+	// the edge pred -> phi's block itself may be a branch of pred's terminating If
+	if len(pred.Instrs) > 0 {
+		if iff, ok := pred.Instrs[len(pred.Instrs)-1].(*ssa.If); ok && pred.Succs[0] != pred.Succs[1] {
+			a, _ := core.AtomOf(core.Guard{Cond: iff.Cond, Pol: pred.Succs[0] == phi.Block(), If: iff})
+			atoms = append(atoms, a)
+		}
+	}
+	for _, a := range atoms {
+		if a.Op == ">=" && core.StripConv(a.LV) == core.StripConv(phi.Edges[i]) {
+			if k, ok := core.ConstInt(a.RV); ok && k > best {
+				best = k
+			}
+		}
+	}
+	return best
 }
 
 // checkWSLimit: C14.limit by abstract interpretation with a configured limit.
@@ -322,7 +392,10 @@ func checkWSLen64(c *Ctx, fn *ssa.Function) {
 			}
 			for _, a := range core.GuardAtoms(r.Block()) {
 				if a.L == "c.readLength" && ((a.Op == ">=" && a.R == "0") || (a.Op == ">" && a.R == "-1")) {
-					ok = true
+					// the tested value must be read after the addition was stored
+					if ld, isLd := core.StripConv(a.LV).(ssa.Instruction); isLd && core.Precedes(store, ld) {
+						ok = true
+					}
 				}
 			}
 		}
